@@ -36,6 +36,7 @@ fn alphabet(with_foreign_price: bool) -> Vec<Value> {
     a.push(json!({"op":"replace","id":2,"price":100,"qty":6}));
     a.push(json!({"op":"replace","id":1,"price":100,"qty":0}));
     a.push(json!({"op":"cancel","id":9}));
+    a.push(json!({"op":"replace","id":9,"price":101,"qty":5}));   // price-changing update of an id that is not resting
     a.push(json!({"op":"read"}));
     a.push(json!({"op":"fork_restore"}));
     a
